@@ -105,7 +105,7 @@ static void check_one(Ctx &ctx, const Val &tree, json_object *j, int flags)
 	// round trip through json-c itself, default and strict mode
 	for (int strict = 0; strict < 2; strict++)
 	{
-		json_tokener *tok = json_tokener_new();
+		json_tokener *tok = json_tokener_new_ex(256); // trees here may be nested deeper than the default limit
 		json_tokener_set_flags(tok, strict ? JSON_TOKENER_STRICT : 0);
 		HeapCopy hc(text, true);
 		json_object *back = json_tokener_parse_ex(tok, hc.p, (int)hc.n);
@@ -225,6 +225,28 @@ void run_case(Choices &c, Ctx &ctx)
 	o.max_nodes = 4 + c.len(50);
 	TreeGen g(c, o);
 	Val tree = g.root();
+	if (c.coin(8))
+	{
+		// a spine of 8..60 containers: indentation and recursion depth of the serialisers
+		for (size_t d = 0, n = (size_t)c.range(8, 60); d < n; d++)
+		{
+			Val w = c.coin(50) ? Val::arr() : Val::obj();
+			if (w.k == Val::Arr)
+			{
+				if (c.coin(30))
+					w.a.push_back(Val::i64((int64_t)d));
+				w.a.push_back(tree);
+			}
+			else
+			{
+				if (c.coin(30))
+					w.set("s", Val::str("x"));
+				w.set("k", tree);
+			}
+			tree = w;
+		}
+		ctx.label("deep_spine");
+	}
 	std::vector<int> fs;
 	size_t nf = 2 + c.pickn(3);
 	for (size_t i = 0; i < nf; i++)
